@@ -144,6 +144,16 @@ def run_hist(hist, H, choice):
             exc = "TypeError"
         except Exception as ex:  # noqa
             exc = type(ex).__name__
+        if (choice >> (step + 5)) & 1 and len(t.attrs):
+            # another tag built from THESE value objects plus one more value for the first name (merged there): this tag and
+            # the objects it holds are not touched by that
+            k0 = next(iter(t.attrs))
+            before_ = proj_attrs(t, H)
+            side = H.Tag("i", {k_: v_ for k_, v_ in t.attrs.items()}, {k0: "side"})
+            side.add_class("more")
+            side.attrs.update({k0: H.HTML("x")}, {k0: "y"})
+            if proj_attrs(t, H) != before_:
+                left.append((t, before_))
         if (choice >> (step + 3)) & 1:
             t.get_html_string()        # rendered in between (whatever a rendering remembers must not outlive a change)
         obs.append({"attrs": proj_attrs(t, H), "exc": exc,
@@ -254,6 +264,10 @@ class _AttrBase(Prop):
                     args.append(ki.pop(0))
                 c >>= 1
             direct = H.Tag("div", *args, **kw)
+            # (an earlier, unrelated call whose result the caller then changed - the usual `attrs["class"] = ...` pattern)
+            early_attrs, _ = H.consolidate_attrs(*[a_ for a_ in args if not isinstance(a_, dict)])
+            early_attrs["class"] = "added-by-the-caller"
+            early_attrs.update({"data-z": "1"})
             attrs, children = H.consolidate_attrs(*args, **kw)
             nondict = [a for a in args if not isinstance(a, dict)]
             same = len(children) == len(nondict) and all(a is b for a, b in zip(children, nondict))
